@@ -22,6 +22,7 @@ import (
 	"net"
 	"os"
 	"syscall"
+	"unsafe"
 )
 
 // CreateListener return a new Listener.
@@ -92,7 +93,7 @@ func (ln *listener) Close() error {
 	// ln.fd is the descriptor of ln.file (see parseFD): it is closed through its owner, exactly once.
 	// Closing the raw number as well closed it twice; the second close hits whatever got the number meanwhile.
 	if ln.file != nil {
-		vp(vpFdClose, nil, int64(ln.fd), 3)
+		vp(vpFdClose, unsafe.Pointer(ln.file), int64(ln.fd), 3)
 		ln.file.Close()
 	} else if ln.fd != 0 {
 		vp(vpFdClose, nil, int64(ln.fd), 2)
